@@ -8,7 +8,7 @@
    the visible history.  Hence (FactorSpec.factor_block_decodes) the emitted
    block is decoded by the specification's decoder to exactly the input. *)
 From Coq Require Import ZArith List Lia Bool ZifyBool.
-From LZ4V Require Import Gen.Consts Spec.BlockSpec Model.Mem Model.Fast Proofs.FactorSpec Proofs.FastBasics.
+From LZ4V Require Import Gen.Consts Spec.BlockSpec Model.Mem Model.Fast Proofs.BlockSpecProofs Proofs.FactorSpec Proofs.FastBasics.
 Import ListNotations.
 Local Open Scope Z_scope.
 
@@ -28,16 +28,19 @@ Section Sound.
     match tt with ByU16 => LZ4_DISTANCE_MAX <? LZ4_DISTANCE_ABSOLUTE_MAX | ByU32 => true end.
   (* a table entry is harmless: inside the history, or rejected by one of the two filters
      at every position of this block *)
-  Definition good (e : Z) : Prop :=
+  Definition good3 (e : Z) : Prop :=
     hist_lo <= e \/ (dictSmall = true /\ e < startIndex - dictSize)
     \/ (dist_active = true /\ e + LZ4_DISTANCE_MAX <= startIndex).
+  (* an entry of the working table below startIndex is never used with a dictionary context
+     (the dictionary's table is consulted instead) *)
+  Definition good (e : Z) : Prop := good3 e \/ (dd = CUsingDictCtx /\ e < startIndex).
   (* [L]: any lower bound of the table's content the caller wants to keep track of *)
   Variable L : Z.
   Hypothesis HL : L <= startIndex.
   Definition tab_ok (c : Z) (tab : mem) : Prop := forall h, L <= get tab h < c /\ good (get tab h).
 
   Hypothesis Hdt : dd = CUsingDictCtx ->
-                   forall h, get dtable h + dictDelta < startIndex /\ good (get dtable h + dictDelta).
+                   forall h, get dtable h + dictDelta < startIndex /\ good3 (get dtable h + dictDelta).
   Hypothesis Hu16 : dist_active = false -> startIndex + inputSize - MFLIMIT - hist_lo <= 65535.
 
   Let iend_ := iend startIndex inputSize.
@@ -57,8 +60,30 @@ Section Sound.
     tab_ok c tab -> c <= c' -> startIndex <= p < c' -> tab_ok c' (set tab h p).
   Proof.
     intros H Hc Hp h'. rewrite get_set. destruct (h =? h').
-    - split; [lia|]. left. pose proof hist_lo_le. lia.
+    - split; [lia|]. left. left. pose proof hist_lo_le. lia.
     - destruct (H h'). split; [lia | assumption].
+  Qed.
+
+  Hypothesis Hs0 : 0 <= startIndex.
+  (* truncated (16-bit) indices are only stored when they cannot be mistaken for a usable position *)
+  Hypothesis Hidx : tt = ByU16 ->
+                    mflimitPlusOne startIndex inputSize <= 65536
+                    \/ (dictSmall = true /\ 65536 <= startIndex - dictSize /\ L <= 0).
+
+  (* storing a position the way LZ4_putIndexOnHash does *)
+  Lemma tab_ok_put c c' tab h p :
+    tab_ok c tab -> c <= c' -> startIndex <= p < c' -> p < mfl -> tab_ok c' (set tab h (idx tt p)).
+  Proof.
+    intros H Hc Hp Hm. unfold idx.
+    assert (Hcase : tt = ByU32 \/ tt = ByU16) by (destruct tt; auto).
+    destruct Hcase as [Et|Et]; rewrite Et; [apply (tab_ok_set c); assumption|].
+    destruct (Hidx Et) as [Hs|(Hs1 & Hs2 & Hs3)].
+    - rewrite Z.mod_small by (fold mfl in Hs; lia). apply (tab_ok_set c); assumption.
+    - intros h'. rewrite get_set. destruct (h =? h').
+      + pose proof (Z.mod_pos_bound p 65536 ltac:(lia)).
+        assert (p mod 65536 <= p) by (apply Z.mod_le; lia).
+        split; [lia|]. left. right. left. split; [exact Hs1 | lia].
+      + destruct (H h'). split; [lia | assumption].
   Qed.
 
   Lemma candidate_spec c tab h :
@@ -70,18 +95,20 @@ Section Sound.
   Proof.
     intros Ht Hc. unfold candidate, lowLimit0.
     destruct (Ht h) as [[_ Hlt] Hg].
-    assert (G : forall e, good e -> e < c ->
+    assert (G : forall e, good3 e -> e < c ->
               ~ (dictSmall = true /\ e < startIndex - dictSize) ->
               ~ (dist_active = true /\ e + LZ4_DISTANCE_MAX < c) -> hist_lo <= e).
     { intros e [He|[He|He]] Hec N1 N2; [assumption | exfalso; apply N1; assumption |].
       exfalso. apply N2. split; [apply He | lia]. }
+    assert (G' : dd <> CUsingDictCtx -> good3 (get tab h)).
+    { intros Hd. destruct Hg as [Hg|[Hg _]]; [exact Hg | contradiction]. }
     pose proof hist_lo_le as Hle.
     assert (Hh : hist_lo = match dd with CNoDict => startIndex | _ => startIndex - dictSize end) by reflexivity.
     destruct dd eqn:Edd.
-    - split; [exact Hlt|]. intros N1 N2. pose proof (G _ Hg Hlt N1 N2). lia.
-    - split; [exact Hlt|]. intros N1 N2. pose proof (G _ Hg Hlt N1 N2). lia.
+    - split; [exact Hlt|]. intros N1 N2. pose proof (G _ (G' ltac:(discriminate)) Hlt N1 N2). lia.
+    - split; [exact Hlt|]. intros N1 N2. pose proof (G _ (G' ltac:(discriminate)) Hlt N1 N2). lia.
     - destruct (get tab h <? startIndex) eqn:E.
-      + split; [exact Hlt|]. intros N1 N2. pose proof (G _ Hg Hlt N1 N2). lia.
+      + split; [exact Hlt|]. intros N1 N2. pose proof (G _ (G' ltac:(discriminate)) Hlt N1 N2). lia.
       + split; [exact Hlt|]. intros _ _. lia.
     - destruct (get tab h <? startIndex) eqn:E.
       + destruct (Hdt eq_refl h) as [Hd1 Hd2].
@@ -92,10 +119,18 @@ Section Sound.
   Qed.
 
   (* ---- invariants ---- *)
+  (* the end-of-block restrictions of the format: the last match ends at least LASTLITERALS
+     and starts at least MFLIMIT bytes before the end of the input *)
+  Definition end_inv (s : cstate) : Prop :=
+    match c_seqs s with
+    | [] => True
+    | q :: _ => c_anchor s <= mlim /\ c_anchor s - s_mlen q <= iend_ - MFLIMIT
+    end.
   Definition SInv (s : cstate) : Prop :=
     startIndex <= c_anchor s /\
     seqs_valid vrd hist_lo startIndex (rev (c_seqs s)) /\
-    seqs_end startIndex (rev (c_seqs s)) = c_anchor s.
+    seqs_end startIndex (rev (c_seqs s)) = c_anchor s /\
+    end_inv s.
 
   Definition MPre (s : cstate) (litLength mi low filledIp : Z) : Prop :=
     SInv s /\ c_anchor s <= c_ip s /\ litLength = c_ip s - c_anchor s /\
@@ -117,6 +152,7 @@ Section Sound.
     | RFail tab => tab_ok endB tab
     | ROk ss last consumed tab _ =>
       tab_ok endB tab /\
+      end_ok ss last = true /\
       consumed = inputSize /\ seqs_valid vrd hist_lo startIndex ss /\
       seqs_end startIndex ss <= startIndex + inputSize /\
       last = seg vrd (seqs_end startIndex ss) (startIndex + inputSize)
@@ -155,10 +191,10 @@ Section Sound.
     { cbn [NPost c_anchor c_seqs c_tab]. split; [exact HS|].
       split; [unfold mfl, mflimitPlusOne, iend_, iend, MFLIMIT in *; lia|].
       eapply tab_ok_mono; [exact Ht|]. unfold endB, mfl, mflimitPlusOne, iend, MFLIMIT in *. lia. }
-    assert (Ht' : tab_ok (forwardIp + 1) (set tab fh forwardIp)) by (apply (tab_ok_set forwardIp); [assumption | lia | lia]).
+    assert (Ht' : tab_ok (forwardIp + 1) (set tab fh (idx tt forwardIp))) by (apply (tab_ok_put forwardIp); [assumption | lia | lia | lia]).
     assert (Hrec : NPost (search vrd tt od dd dictSmall startIndex dictSize dtable dictDelta inputSize maxOutputSize
                             f s (forwardIp + step) (smn / 2 ^ LZ4_skipTrigger) (smn + 1)
-                            (hashPosition vrd tt (forwardIp + step)) (set tab fh forwardIp))).
+                            (hashPosition vrd tt (forwardIp + step)) (set tab fh (idx tt forwardIp)))).
     { apply IH; try assumption; try lia.
       - eapply tab_ok_mono; [exact Ht' | lia].
       - assert (0 < 2 ^ LZ4_skipTrigger) by (unfold LZ4_skipTrigger; lia).
@@ -178,7 +214,7 @@ Section Sound.
     set (back := catchup vrd (Z.to_nat (forwardIp - c_anchor s)) forwardIp mi (c_anchor s) low 0) in *.
     destruct Hcu as (Hb1 & Hb2 & Hb3 & Hb4).
     assert (Hfm : forwardIp < mfl) by lia.
-    assert (Hpre : forall o hw, MPre (mkC (forwardIp - back) (c_anchor s) o (c_seqs s) (set tab fh forwardIp) hw)
+    assert (Hpre : forall o hw, MPre (mkC (forwardIp - back) (c_anchor s) o (c_seqs s) (set tab fh (idx tt forwardIp)) hw)
                                      (forwardIp - back - c_anchor s) (mi - back) low forwardIp).
     { intros o hw. unfold MPre. cbn [c_ip c_anchor c_seqs c_tab].
       split; [exact HS|]. split; [lia|]. split; [reflexivity|]. split; [lia|]. split; [lia|].
@@ -206,7 +242,7 @@ Section Sound.
                       s t l mi low fi).
   Proof.
     intros (HS & Hai & Hl & Hlow & Hmi & Hoff & Hip & Hfi & Heq & Ht).
-    destruct HS as (HS1 & HS2 & HS3).
+    destruct HS as (HS1 & HS2 & HS3 & _).
     unfold next_match. cbv zeta.
     set (i := c_ip s) in *.
     assert (Hi4 : i + MINMATCH <= mlim) by (unfold mlim, matchlimit, mfl, mflimitPlusOne, iend, MFLIMIT, LASTLITERALS, MINMATCH in *; lia).
@@ -229,7 +265,7 @@ Section Sound.
     { intros ip o tab hw. unfold SInv. cbn [c_anchor c_seqs rev].
       assert (Hll : Z.of_nat (length (s_lits sq)) = l).
       { unfold sq. cbn [s_lits]. rewrite lits_length. lia. }
-      split; [unfold i1, MINMATCH; lia|]. split.
+      split; [unfold i1, MINMATCH; lia|]. split; [|split].
       - apply seqs_valid_app; [exact HS2|]. cbv zeta. rewrite HS3, Hll. split.
         + unfold sq. cbn [s_lits]. apply lits_seg. exact Hl0.
         + unfold sq. cbn [s_off s_mlen]. unfold match_ok.
@@ -240,17 +276,19 @@ Section Sound.
           unfold MINMATCH in *.
           replace (i + k) with (i + 4 + (k - 4)) by lia. replace (mi + k) with (mi + 4 + (k - 4)) by lia.
           apply Hc2. lia.
-      - rewrite seqs_end_app, HS3, Hll. unfold sq. cbn [s_mlen]. unfold i1. lia. }
+      - rewrite seqs_end_app, HS3, Hll. unfold sq. cbn [s_mlen]. unfold i1. lia.
+      - unfold end_inv. cbn [c_seqs c_anchor]. unfold sq. cbn [s_mlen].
+        unfold i1, mfl, mflimitPlusOne, iend_ in *. lia. }
     assert (Hi1 : Z.max fi i < i1) by (unfold i1, MINMATCH; lia).
     assert (Hi1m : i1 <= mlim) by (unfold i1; lia).
     (* shape of the rest, independent of op / hw bookkeeping *)
     assert (Rest : forall o hw,
       NPost (if i1 >=? mfl then NLast (mkC i1 i1 o (sq :: c_seqs s) (c_tab s) (Z.max hw o))
              else
-               let tab := set (c_tab s) (hashPosition vrd tt (i1 - 2)) (i1 - 2) in
+               let tab := set (c_tab s) (hashPosition vrd tt (i1 - 2)) (idx tt (i1 - 2)) in
                let h := hashPosition vrd tt i1 in
                let '(mi2, low2) := candidate dd startIndex dictSize dtable dictDelta tab h in
-               let tab0 := set tab h i1 in
+               let tab0 := set tab h (idx tt i1) in
                if (if dictSmall then mi2 >=? prefixIdxLimit startIndex dictSize else true)
                   && match tt with
                      | ByU16 => if LZ4_DISTANCE_MAX =? LZ4_DISTANCE_ABSOLUTE_MAX then true else mi2 + LZ4_DISTANCE_MAX >=? i1
@@ -265,14 +303,14 @@ Section Sound.
         split; [unfold mlim, matchlimit, iend_, LASTLITERALS in *; lia|].
         eapply tab_ok_mono; [exact Ht|]. unfold endB, mfl, mflimitPlusOne, iend, MFLIMIT in *. lia. }
       cbv zeta.
-      assert (Ht1 : tab_ok i1 (set (c_tab s) (hashPosition vrd tt (i1 - 2)) (i1 - 2))).
-      { apply (tab_ok_set (Z.max fi i + 1)); [exact Ht | lia|]. unfold i1, MINMATCH in *. lia. }
+      assert (Ht1 : tab_ok i1 (set (c_tab s) (hashPosition vrd tt (i1 - 2)) (idx tt (i1 - 2)))).
+      { apply (tab_ok_put (Z.max fi i + 1)); [exact Ht | lia | unfold i1, MINMATCH in *; lia | lia]. }
       pose proof (candidate_spec i1 _ (hashPosition vrd tt i1) Ht1 ltac:(unfold i1, MINMATCH; lia)) as Hc.
       destruct (candidate dd startIndex dictSize dtable dictDelta
-                  (set (c_tab s) (hashPosition vrd tt (i1 - 2)) (i1 - 2)) (hashPosition vrd tt i1)) as [mi2 low2].
+                  (set (c_tab s) (hashPosition vrd tt (i1 - 2)) (idx tt (i1 - 2))) (hashPosition vrd tt i1)) as [mi2 low2].
       destruct Hc as [Hm2 Hlow2].
-      assert (Ht2 : tab_ok (i1 + 1) (set (set (c_tab s) (hashPosition vrd tt (i1 - 2)) (i1 - 2)) (hashPosition vrd tt i1) i1)).
-      { apply (tab_ok_set i1); [exact Ht1 | lia|]. unfold i1, MINMATCH in *. lia. }
+      assert (Ht2 : tab_ok (i1 + 1) (set (set (c_tab s) (hashPosition vrd tt (i1 - 2)) (idx tt (i1 - 2))) (hashPosition vrd tt i1) (idx tt i1))).
+      { apply (tab_ok_put i1); [exact Ht1 | lia | unfold i1, MINMATCH in *; lia | lia]. }
       match goal with |- NPost (if ?c then _ else _) => destruct c eqn:E2 end.
       - (* immediate re-match *)
         apply andb_prop in E2. destruct E2 as [E2 E4]. apply andb_prop in E2. destruct E2 as [E2 E3].
@@ -312,10 +350,15 @@ Section Sound.
     SInv s -> c_anchor s <= iend_ -> tab_ok endB (c_tab s) ->
     RPost (last_literals vrd od startIndex inputSize maxOutputSize s).
   Proof.
-    intros (H1 & H2 & H3) Ha Htb. unfold last_literals. cbv zeta. fold iend_.
+    intros (H1 & H2 & H3 & H5) Ha Htb. unfold last_literals. cbv zeta. fold iend_.
     assert (G : forall hw, RPost (ROk (rev (c_seqs s)) (lits vrd (Z.to_nat (iend_ - c_anchor s)) (c_anchor s))
                                        (c_anchor s + (iend_ - c_anchor s) - startIndex) (c_tab s) hw)).
     { intros hw. cbn [RPost]. rewrite H3. split; [exact Htb|].
+      split.
+      { unfold end_ok. rewrite rev_involutive. unfold end_inv in H5.
+        destruct (c_seqs s) as [|q r]; [reflexivity|]. destruct H5 as [H5a H5b].
+        rewrite lits_length.
+        unfold mlim, matchlimit, iend_, iend, LASTLITERALS, MFLIMIT in *. lia. }
       split; [unfold iend_, iend; lia|]. split; [exact H2|]. split; [unfold iend_, iend in *; lia|].
       rewrite lits_seg by lia. f_equal. unfold iend_, iend. lia. }
     destruct od; try (exfalso; apply Hod; reflexivity).
@@ -359,7 +402,7 @@ Section Sound.
   Proof.
     intros Hn Ht. unfold compress_validated.
     assert (HS0 : forall ip o t hw, SInv (mkC ip startIndex o [] t hw)).
-    { intros. unfold SInv. cbn [c_anchor c_seqs rev seqs_valid seqs_end]. repeat split; lia. }
+    { intros. unfold SInv, end_inv. cbn [c_anchor c_seqs rev seqs_valid seqs_end]. repeat split; lia. }
     assert (Ef : (match od with FillOutput => true | _ => false end) = false).
     { destruct od; try reflexivity. exfalso; apply Hod; reflexivity. }
     rewrite Ef. cbn [andb]. cbv zeta.
@@ -368,7 +411,8 @@ Section Sound.
       cbn [c_tab]. eapply tab_ok_mono; [exact Ht | unfold endB; lia].
     + apply main_loop_ok; cbn [c_anchor c_ip c_tab]; [apply HS0 | lia | | ].
       * unfold mfl, mflimitPlusOne, iend, MFLIMIT, LZ4_minLength in *. lia.
-      * apply (tab_ok_set (startIndex + 1)); [exact Ht | lia | lia].
+      * apply (tab_ok_put (startIndex + 1)); [exact Ht | lia | lia|].
+        unfold mfl, mflimitPlusOne, iend, MFLIMIT, LZ4_minLength in *. lia.
   Qed.
 
   (* ... hence the specification's decoder, given the visible history, decodes the emitted block
@@ -382,10 +426,27 @@ Section Sound.
       = Some (seg vrd startIndex (startIndex + inputSize)).
   Proof.
     intros Hn Ht E. pose proof (compress_validated_factor tab Hn Ht) as H. rewrite E in H.
-    cbn [RPost] in H. destruct H as (_ & H1 & H2 & H3 & H4).
+    cbn [RPost] in H. destruct H as (_ & _ & H1 & H2 & H3 & H4).
     split; [exact H1|].
     apply (factor_block_decodes vrd hist_lo startIndex (startIndex + inputSize) ss last Hb hist_lo_le H2 H3 H4).
+  Qed.
+
+  (* ... and the block also satisfies the end-of-block restrictions of the format *)
+  Theorem compress_validated_strict tab ss last consumed tab' hw :
+    0 <= inputSize -> tab_ok (startIndex + 1) tab ->
+    compress_validated vrd tt od dd dictSmall startIndex dictSize dtable dictDelta inputSize maxOutputSize
+                       acceleration tab = ROk ss last consumed tab' hw ->
+    strict_valid (seg vrd hist_lo startIndex) (encode_block ss last)
+      = Some (seg vrd startIndex (startIndex + inputSize)).
+  Proof.
+    intros Hn Ht E. pose proof (compress_validated_factor tab Hn Ht) as H. rewrite E in H.
+    cbn [RPost] in H. destruct H as (_ & He & H1 & H2 & H3 & H4).
+    rewrite strict_valid_encode.
+    - rewrite He. apply (factor_decodes vrd hist_lo startIndex (startIndex + inputSize) ss last hist_lo_le H2 H3 H4).
+    - eapply seqs_valid_wf; eauto.
+    - subst last. apply seg_bytes_ok. exact Hb.
   Qed.
 End Sound.
 
 Print Assumptions compress_validated_roundtrip.
+Print Assumptions compress_validated_strict.
